@@ -441,14 +441,17 @@ def _phase_run(sc, ctx, sub, crash_k):
     }
 
 
-def _phase_restart(sc, ctx, sub, golden_objs):
-    """Child B: a fresh process.  Audit, re-run the same operation, audit."""
+def _phase_restart(sc, ctx, sub, golden_objs, crash_j=None):
+    """Child B: a fresh process.  Audit, re-run the same operation, audit.  With crash_j the
+    re-run itself is killed at its j-th seam point (a later, third process then does the same)."""
     seam = ctx.seam
     seam.reset(sub, random.Random(f"{ctx.seed}/order/restart"))
     seam.set_actor("p2")
     env = Env(sc, ctx, sub)
     v1 = audit(env, after_rerun=False)
     err = None
+    if crash_j is not None:
+        seam.crash_at = seam.npoints + crash_j
     try:
         failed = env.operate()
         if failed:
@@ -523,6 +526,14 @@ def execute(sc, ctx):
             # the run diverged from the golden one before reaching point k
             raise HarnessError(f"crash run k={k} exited {code} instead of dying at the crash point: {res}")
         ctx.seam.fired["crash@" + ev[0]] += 1
+        # sometimes the recovery run is killed as well, early in its work (a second crash while the
+        # leftovers of the first are being repaired), and a third process recovers
+        krng = random.Random(f"{ctx.seed}/double/{k}")
+        if krng.random() < 0.3:
+            j = krng.randint(1, 4)
+            code_j, _ = _fork(lambda: _phase_restart(sc, ctx, sub, golden["objs"], crash_j=j))
+            if code_j == 77:
+                ctx.probe("recovery_run_crashed_too")
         code2, res2 = _fork(lambda: _phase_restart(sc, ctx, sub, golden["objs"]))
         if code2 != 0 or not res2 or "exc" in res2:
             raise HarnessError(f"restart phase k={k} failed: code={code2} {res2}")
